@@ -68,8 +68,8 @@ def used(node, n, sub_busy=True):
     (its implicit prepare/measure); with False only the gates written in it count."""
     tag = node[0]
     if tag == "g":
-        if node[1] in (PREP, MEAS):
-            return set(range(n))
+        if node[1] in (PREP, MEAS) or node[1].startswith("BSY"):
+            return set(range(n))  # busy gates occupy every qubit, whatever their arguments
         if is_idle(node[1]):
             return set()
         s = set()
